@@ -196,6 +196,10 @@ def run(tier: str) -> int:
         detail = {"source": src, "cell": cell, "variant": variant, "mode": mode, "how": how, "exception": exc, "message": msg}
         ck.fail(f"{exc} escapes from {key_of(cell)} ({mode}, {how}): {msg[:80]}", detail, sig=sig)
     ck.cov["observations"] = len(observations)
+    for j in (0, len(meta) // 2, len(meta) - 1):
+        if meta:
+            cell, variant, src, mode, how, msg = meta[j]
+            ck.sample({"source": src, "cell": cell, "mode": mode, "api": how, "exit": observations[j]["st"]})
     ck.assumptions += ["value kinds are those listed in Exits.tla!Vals; custom filters/tags/drops are out of scope",
                        "BaseException subclasses raised by the harness's own alarms are not exits of the engine"]
     return ck.finish()
